@@ -349,6 +349,7 @@ inductive LineOutcome (w : W) (c : Cli) (r : W × Cli) : Prop where
       (out : outOf r.1 r.2 = outOf w c ++ render items)
       (buf : (r.2.toBuf = c.toBuf ++ render items ∧ r.1.sys = w.sys) ∨ QuitFlush w c r items)
       (cmd : r.2.cmd = c.cmd) (ex : r.1.exited = w.exited) (clean : FixedClean dataCodesP items)
+      (prompted : c.cmd = none → r.2.quit = false → items.getLast? = some Item.prompt)
   /-- a command was installed: nothing is written yet -/
   | installed (k : CmdC) (idle : c.cmd = none) (cmd : r.2.cmd = some k) (pending : 0 < k.pending)
       (buf : r.2.toBuf = c.toBuf) (sys : r.1.sys = w.sys) (ex : r.1.exited = w.exited)
@@ -370,12 +371,14 @@ theorem mkReply (w : W) (c0 : Cli) (r : W × Cli) (infos : List Item) (code : Na
   have hbuf' : r.2.toBuf = c0.toBuf ++ render (infos ++ [Item.line code text] ++ (if promptAfter r.2.quit code then [Item.prompt] else [])) := by
     rw [hbuf]; simp only [promptAfter]
     cases r.2.quit <;> simp [h208, h101, render, Item.render]
-  refine .reply _ ⟨infos, code, text, rfl, hi, hc⟩ ?_ (Or.inl ⟨hbuf', hsys⟩) hcmd hex ?_
+  refine .reply _ ⟨infos, code, text, rfl, hi, hc⟩ ?_ (Or.inl ⟨hbuf', hsys⟩) hcmd hex ?_ ?_
   · simp only [outOf, hbuf', hsys, hfd, List.append_assoc]
   · apply hcl.append
     split
     · exact .of_clean (by simp [Item.clean])
     · exact .of_clean (by simp)
+  · intro _ hq
+    simp [promptAfter, hq, h208, h101]
 
 theorem plFin_outcome (w : W) (c0 c : Cli) (b : Bytes) (infos : List Item) (code : Nat) (text : Bytes)
     (h1 : c.toBuf = c0.toBuf) (h2 : c.cmd = c0.cmd) (h3 : c.fd = c0.fd)
@@ -578,8 +581,9 @@ theorem QuitFlush.out {w : W} {c : Cli} {r : W × Cli} {items : List Item} (h : 
 
 theorem plQuit_outcome (w : W) (c : Cli) : LineOutcome w c (plQuit w c) := by
   obtain ⟨hq, hcmd, hex, hfr⟩ := plQuit_spec w c
-  refine .reply [item101] ⟨[], 101, bstr "Goodbye", ?_, by simp, by decide⟩ (hq.out hfr.fd) (Or.inr hq) hcmd hex (.of_clean (by decide +kernel))
-  simp [promptAfter, item101]
+  refine .reply [item101] ⟨[], 101, bstr "Goodbye", ?_, by simp, by decide⟩ (hq.out hfr.fd) (Or.inr hq) hcmd hex (.of_clean (by decide +kernel)) ?_
+  · simp [promptAfter, item101]
+  · intro _ h; rw [hq.1] at h; cases h
 
 
 abbrev item213 : Item := .line 213 (bstr "Command cannot be handled by power control device(s)")
@@ -726,15 +730,16 @@ theorem parseLine_busy (w : W) (c : Cli) (line : Bytes) (h : c.cmd.isSome = true
     parseLine w c line = (w, put c (render [item208])) := by
   rw [parseLine_eq]; unfold parseLine'; rw [if_pos h, bstr_208]
 
-theorem busy_outcome (w : W) (c : Cli) : LineOutcome w c (w, put c (render [item208])) := by
-  refine .reply [item208] ⟨[], 208, bstr "Command in progress", ?_, by simp, by decide⟩ ?_ (Or.inl ⟨rfl, rfl⟩) rfl rfl (.of_clean (by decide +kernel))
+theorem busy_outcome (w : W) (c : Cli) (hb : c.cmd.isSome = true) : LineOutcome w c (w, put c (render [item208])) := by
+  refine .reply [item208] ⟨[], 208, bstr "Command in progress", ?_, by simp, by decide⟩ ?_ (Or.inl ⟨rfl, rfl⟩) rfl rfl (.of_clean (by decide +kernel)) ?_
   · simp [promptAfter]
   · simp [outOf, put]
+  · intro h; rw [h] at hb; cases hb
 
 /-- C04/C06/C15 core: the three possible outcomes of one request line, for every line, client and world -/
 theorem parseLine_shape (w : W) (c : Cli) (line : Bytes) : LineOutcome w c (parseLine w c line) := by
   cases h : c.cmd.isSome with
-  | true => rw [parseLine_busy w c line h]; exact busy_outcome w c
+  | true => rw [parseLine_busy w c line h]; exact busy_outcome w c h
   | false =>
     rw [parseLine_eq]; unfold parseLine'; rw [if_neg (by simp [h])]
     exact plIdle_outcome w c _ (by simpa using h)
@@ -1025,5 +1030,28 @@ theorem handleInput_lines (w : W) (c : Cli) : handleInput w c = runLines w c (li
 
 theorem handleInputF_fuel (fuel : Nat) (w : W) (c : Cli) (h : c.fromBuf.length < fuel) : handleInputF fuel w c = handleInput w c := by
   rw [handleInputF_lines fuel w c h, handleInput_lines]
+
+
+theorem runLines_consumed : ∀ (ls : List Bytes) (w : W) (c : Cli), (runLines w c ls).1.exited = false →
+    (runLines w c ls).2.fromBuf = c.fromBuf.drop ls.flatten.length := by
+  intro ls; induction ls with
+  | nil => intro w c _; simp [runLines]
+  | cons l ls ih =>
+    intro w c h
+    unfold runLines at h ⊢
+    by_cases hex : w.exited = true
+    · rw [if_pos hex] at h; simp [hex] at h
+    · rw [if_neg hex] at h ⊢
+      rw [ih _ _ h, (parseLine_frame ..).fromBuf]
+      simp [List.drop_drop]
+
+/-- when the daemon survives, what stays in `from` is exactly the unterminated rest -/
+theorem handleInput_tail (w : W) (c : Cli) (h : (handleInput w c).1.exited = false) :
+    (handleInput w c).2.fromBuf = (linesOf c.fromBuf).2 := by
+  rw [handleInput_lines] at h ⊢
+  rw [runLines_consumed _ _ _ h]
+  have := linesOf_flatten c.fromBuf
+  conv => lhs; arg 2; rw [← this]
+  simp
 
 end Pm.Daemon
